@@ -26,6 +26,7 @@ fn main() {
         "C14" => run_check(c14::C14, &args),
         "C15" => run_check(c15::C15, &args),
         "C16" => run_check(c16::C16, &args),
+        "C17" => run_check(c17::C17, &args),
         "C18" => run_check(c18::C18, &args),
         "C19" => run_check(c19::C19, &args),
         "C20" => run_check(c20::C20, &args),
